@@ -88,6 +88,9 @@ func verifDBStore(dir string) metadata.Store {
 	}
 }
 
+// verifDBTweak, when set, adjusts the resolver configuration of the next stack (passthrough scenarios).
+var verifDBTweak func(*config.Config)
+
 func verifNewDBStack(rnd *verifutil.Rand, ents []verifc02.Ent, opts verifc02.BuildOpts, verify bool, timeoutSec int64, asyncSize int64) (*verifDBStack, error) {
 	if opts.Plain {
 		ents = verifc02.DedupLast(ents)
@@ -127,6 +130,9 @@ func verifNewDBStack(rnd *verifutil.Rand, ents []verifc02.Ent, opts verifc02.Bui
 	}
 	if rnd.Bool() {
 		fcfg.HTTPCacheType = "memory"
+	}
+	if verifDBTweak != nil {
+		verifDBTweak(&fcfg)
 	}
 	s.cfgStr = fmt.Sprintf("regchunk=%d pchunk=%d fs=%q http=%q lru=%d direct=%v verify=%v", fcfg.ChunkSize, fcfg.PrefetchChunkSize,
 		fcfg.FSCacheType, fcfg.HTTPCacheType, fcfg.MaxLRUCacheEntry, fcfg.Direct, verify)
@@ -353,6 +359,79 @@ func (s *verifDBStack) dropCaches(out *verifutil.Out) {
 	out.Count("drop-caches")
 }
 
+// verifDBPassthrough: FUSE passthrough over the db store — node.Open merges the file into one backing
+// file; its whole content is compared with the tar.  Chunk sizes dividing and NOT dividing the merge
+// buffer (a chunk straddling a batch boundary must take the sequential path, 6332cf7).
+func verifDBPassthrough(out *verifutil.Out, rnd *verifutil.Rand) {
+	geo := [][3]int64{{3, 8, 20}, {5, 12, 40}, {4, 6, 10}, {7, 16, 50}, {16, 32, 128}, {7, 21, 70}, {3, 8, 9}, {5, 12, 15}, {4, 6, 8}}
+	for k, g := range geo {
+		chunk, mbs, size := g[0], g[1], g[2]
+		ents := []verifc02.Ent{{Name: "g/big", Type: tar.TypeReg, Mode: 0o644, Size: size, Kind: k % 2, Salt: int64(70 + k)},
+			{Name: "tail", Type: tar.TypeReg, Mode: 0o644, Size: chunk + 1, Salt: int64(90 + k)}}
+		opts := verifc02.BuildOpts{ChunkSize: int(chunk), Zstd: k%3 == 2}
+		if k%2 == 1 {
+			opts.MinChunkSize = 100
+		}
+		workers := 1 + k%3
+		verifDBTweak = func(c *config.Config) {
+			c.FSCacheType = ""
+			c.Direct = true
+			c.PassThrough = true
+			c.MergeBufferSize = mbs
+			c.MergeWorkerCount = workers
+		}
+		s, err := verifNewDBStack(rnd, ents, opts, true, 2, 0)
+		verifDBTweak = nil
+		if err != nil {
+			out.Fail("db-stack-setup-failed", fmt.Sprintf("passthrough geometry %d: %v", k, err))
+			continue
+		}
+		out.Comment(fmt.Sprintf("db passthrough geometry %d: chunk %d, merge buffer %d, file %d", k, chunk, mbs, size))
+		for round := 0; round < 2; round++ {
+			for _, p := range []string{"g/big", "tail"} {
+				fmt.Fprintf(os.Stderr, "verif-c02db: passthrough open of %q (size %d) chunk-size=%d min-chunk-size=%d merge_buffer_size=%d merge_worker_count=%d\n",
+					p, len(s.view[p].Content), chunk, opts.MinChunkSize, mbs, workers)
+				fh, errno := s.tree.Open(p)
+				if errno != 0 {
+					out.Fail("open-failed", fmt.Sprintf("db store: open %q: %v", p, errno))
+					continue
+				}
+				want := s.view[p].Content
+				got, has := verifc02.PassthroughContent(fh, int64(len(want))+16)
+				ctx := fmt.Sprintf("db store: file %q (size %d) chunk-size %d, merge buffer %d, %d workers [%s]", p, len(want), chunk, mbs, workers, s.opts)
+				if !has {
+					out.Fail("passthrough-fd-missing", ctx+": node.Open did not provide a passthrough fd")
+				} else if len(got) != len(want) {
+					out.Fail("passthrough-length-differs", fmt.Sprintf("%s: the passthrough file holds %d bytes, the tar %d", ctx, len(got), len(want)))
+				} else if !bytes.Equal(got, want) {
+					out.Fail("passthrough-bytes-differ", ctx+": the passthrough file differs from the tar payload")
+				}
+				// on-demand reads through the same handle put single chunks into the chunk cache
+				if b, e := verifc02.ReadFH(fh, chunk+1, int(chunk)); e == 0 && !bytes.Equal(b, want[min(int(chunk+1), len(want)):min(int(2*chunk+1), len(want))]) {
+					out.Fail("read-bytes-differ", ctx+": read through the passthrough handle differs from the tar")
+				}
+				verifc02.ReleaseFH(fh)
+				out.Count("passthrough-fd")
+			}
+			// second round: the merged files are rebuilt from a partly filled chunk cache
+			s.dropMerged()
+		}
+		out.Distinct(fmt.Sprintf("db-passthrough-geo/%d/%d/%d", chunk, mbs, size))
+		s.close()
+	}
+}
+
+// dropMerged removes the biggest files of the chunk-cache directory (the merged backing files are the
+// only entries larger than a chunk), so that the next open rebuilds them.
+func (s *verifDBStack) dropMerged() {
+	filepath.Walk(filepath.Join(s.root, "fscache"), func(p string, info os.FileInfo, err error) error {
+		if err == nil && !info.IsDir() && !strings.Contains(p, "/wip/") && info.Size() > 16 {
+			os.Remove(p)
+		}
+		return nil
+	})
+}
+
 // TestVerifC02DB — C02 over the db metadata store.
 func TestVerifC02DB(t *testing.T) {
 	rnd := verifutil.NewRand(verifc02.MixSeed(verifutil.Seed(), 3))
@@ -363,6 +442,7 @@ func TestVerifC02DB(t *testing.T) {
 	reg := func(name string, size int64, salt int64) verifc02.Ent {
 		return verifc02.Ent{Name: name, Type: tar.TypeReg, Mode: 0o644, Size: size, Salt: salt, MTime: 1700000000}
 	}
+	verifDBPassthrough(out, rnd)
 	// regression scenarios first (layouts of the defects repaired by 46fe897 and 8686934)
 	fixed := []struct {
 		ents []verifc02.Ent
